@@ -6,11 +6,13 @@ from ..rules.skeleton import Interp
 from ..util import switch_table, find_switches, is_assign
 
 EXPLANATION = (
-    "Static decision of table clauses of C17: (1) the level contribution table of the reader's schema "
-    "walk (traverse_schema_recursive) equals the textbook definition - OPTIONAL: def+1, REPEATED: def+1 "
-    "and rep+1, REQUIRED/absent: +0 - the accumulated pair is what is passed to the children and stored "
-    "at leaves, a leaf returns element_idx+1 and a group returns the index returned by its last child, "
-    "the walk starts below the root with (0,0); (2) the level expressions of the builder "
+    "Static decision of table clauses of C17: (1) the reader's schema walk "
+    "(traverse_schema_recursive) is executed abstractly on the cases that define its table - a leaf of each "
+    "repetition (with/without the flag) under two ancestor level pairs, a group of each repetition over a "
+    "leaf, sibling leaves, a two-child group, an over-long child count - and must record the textbook levels "
+    "(OPTIONAL: def+1, REPEATED: def+1 and rep+1, REQUIRED/absent: +0, accumulated along the path), the "
+    "element index, consecutive slots, and return the index just past the subtree; the walk starts below "
+    "the root with (0,0); (2) the level expressions of the builder "
     "(carquet_schema_add_column), the writer (add_column_internal) and the node accessors are "
     "evaluated for the three repetition values and agree with that table for a flat leaf; (3) "
     "count_leaves and the walk use the same leaf predicate (the arrays sized by one are indexed by the "
